@@ -241,6 +241,8 @@ struct ReadyRecord {
     last_entry: Option<(u64, u64)>,
     // (index, term) of the snapshot in Ready
     snapshot: Option<(u64, u64)>,
+    // Whether the Ready carries a term or vote change that is yet to be persisted
+    hs_promise_changed: bool,
 }
 
 /// LightReady encapsulates the commit index, committed entries and
@@ -499,6 +501,9 @@ impl<T: Storage> RawNode<T> {
             ..Default::default()
         };
 
+        // Whether an earlier Ready with a term or vote change is still waiting to be persisted.
+        let mut pending_hs_promise = self.records.iter().any(|r| r.hs_promise_changed);
+
         if self.prev_ss.raft_state != StateRole::Leader && raft.state == StateRole::Leader {
             // The vote msg which makes this peer become leader has been sent after persisting.
             // So the remaining records must be generated during being candidate which can not
@@ -517,6 +522,8 @@ impl<T: Storage> RawNode<T> {
         if hs != self.prev_hs {
             if hs.vote != self.prev_hs.vote || hs.term != self.prev_hs.term {
                 rd.must_sync = true;
+                rd_record.hs_promise_changed = true;
+                pending_hs_promise = true;
             }
             rd.hs = Some(hs);
         }
@@ -554,7 +561,11 @@ impl<T: Storage> RawNode<T> {
 
         // Leader can send messages immediately to make replication concurrently.
         // For more details, check raft thesis 10.2.1.
-        rd.is_persisted_msg = raft.state != StateRole::Leader;
+        // The exception is a term or vote change that is not persisted yet (a single-voter
+        // node elects itself without waiting for any persisted message): a vote it granted
+        // just before, and anything it says as leader of the new term, promise a hard state
+        // that a crash could still lose, so these messages must wait like on a follower.
+        rd.is_persisted_msg = raft.state != StateRole::Leader || pending_hs_promise;
         rd.light = self.gen_light_ready();
         self.records.push_back(rd_record);
         rd
